@@ -67,6 +67,11 @@ func (c *Ctx) EvBytes(kind string, p []byte) {
 	c.Ev(kind, int64(len(p)), 0, 0)
 }
 
+// NewCtx makes a stand-alone context (child processes that regenerate a run's workload).
+func NewCtx(t *Tape, run, seed uint64, thorough bool) *Ctx {
+	return &Ctx{T: t, Thorough: thorough, Run: run, Seed: seed, st: newStats(), h: 0xcbf29ce484222325}
+}
+
 // Muted returns a scratch context whose events and counters are discarded: for
 // auxiliary re-executions (e.g. re-measuring an allocation) that must not
 // perturb the run's event log. It has no tape; code using it must not draw.
